@@ -66,7 +66,8 @@ PROPS["C17"] = dict(num=17, labs=["doc"], rule=DOC_RULE, nontrivial="at least on
 POL_RULE = ("Policy lab under synctest: (3) cache.GetWithExpiration operation sequences over 3 keys with callback success/failure, expirations -1/0/1s/90s/1h and "
             "clock advances landing exactly on / 1 ns after pending expiries; (4) the real publicip.GetPublicIP over a scripted http.RoundTripper (1..5 providers, per-attempt "
             "scripts: status classes 2xx/3xx/4xx/5xx x valid/invalid body, transport error, body-read error, hang, answers slower than the per-provider deadline; backoff randomisation off); "
-            "(5) reversedns.GetReverseDnsForIPs against a resolver that answers after a delay or never.")
+            "(5) reversedns.GetReverseDnsForIPs against a resolver that answers after a delay or never; "
+            "(19) the real sackDriver.ReadHandshake with frames arriving over time: silence, a trickle of packets it must skip (other connections' SYN-ACKs, ICMP, plain ACKs, garbage) at intervals below the read timeout for up to 4 s, the genuine SYN-ACK early / after the deadline / never, no-SACK-permitted, bursts: outcome and elapsed virtual time.")
 PROPS["C18"] = dict(num=18, labs=["doc", "pol"], rule=DOC_RULE + " " + POL_RULE,
     nontrivial="a request with at least one run (doc lab) / any policy-lab case", trivial_classes=[0, 4, 8, 12, 32, 36, 40, 44, 64, 68, 72, 76, 96, 100, 104, 108],
     signatures={"18": "names attached to a hop/destination differ from the resolver's answer for that address", "18.2": "cache served a value no earlier successful callback produced, cached a failure, or mis-reported the callback",
@@ -76,9 +77,9 @@ PROPS["C18"] = dict(num=18, labs=["doc", "pol"], rule=DOC_RULE + " " + POL_RULE,
 PROPS["C08"] = dict(num=8, labs=["eng", "pol"], rule=ENG_RULE + " One case in five cancels the caller's context at an arbitrary virtual instant. " + POL_RULE,
     nontrivial="any case other than an empty script without cancellation", trivial_classes=[0, 1],
     signatures={"8": "engine run exceeded its computable bound", "8.1": "cancelled run did not return the cancellation error within poll + delay", "8.2": "public-IP lookup exceeded providers x per-checker timeout",
-                "8.3": "reverse-DNS lookup exceeded its timeout", "9": "a valid scripted run returned an error", "10": "engine panicked", "3.1": "out-of-range reply produced a path"},
+                "8.3": "reverse-DNS lookup exceeded its timeout / SACK handshake read outlived its 500 ms deadline", "9": "a valid scripted run returned an error", "10": "engine panicked", "3.1": "out-of-range reply produced a path"},
     trusted_base=ENG_TRUSTED + ["scripted http.RoundTripper honours the request's context exactly like net/http's transport would (oracle: HTTP client and resolver return by the deadline of the context they are given)"],
-    assumptions=["SACK dial/handshake deadlines and RunTraceroute-level composition are not covered by this check (partial)"])
+    assumptions=["net.Dialer returns by the deadline of the context it is given (oracle for the SACK dial); RunTraceroute-level composition of the per-run bounds is not covered by this check (partial)"])
 
 DRV_RULE = ("Driver lab: the real ICMP (v4, v6), UDP (v4, v6; strict, relaxed), TCP SYN (default, Paris; strict, relaxed) and SACK (strict, relaxed) drivers over the simulated wire under synctest, "
             "one case per SendProbe / ReceiveProbe / ReadHandshake. Echo-id, IP-ID base, sequence number and ISN at and around wrap-around; TTL ranges incl. 1..1, 250..255, 255..255 and a sweep of all 255 TTLs per variant. "
@@ -100,6 +101,8 @@ for _pid, _num, _labs, _sig in [
         signatures=dict(_sig, **{"9": "a valid scripted run returned an error", "10": "engine panicked", "3.1": "out-of-range reply produced a path"}),
         trusted_base=DRV_TRUSTED + (ENG_TRUSTED if "eng" in _labs else []), assumptions=["driver table holds what SendProbe stored (replayed from the observed sends)"])
 
+_SHARED_SIGS = {"1.2": "composed run on a shared wire: a router of another flow appears among the hops", "2.3": "composed run on a shared wire: the run did not report the ideal path of its own flow (a reply that was delivered is missing or misplaced)",
+                "5.2": "composed run: a hop's RTT is not send -> FIRST reply of that probe (e.g. overwritten by a later duplicate)", "11.5": "two concurrent runs used the same flow identifier"}
 PAR_RULE = ("Parameter / policy lab: (8) the real RunTraceroute over the simulated wire behind packets.NewSourceSink with TTL bounds from {-1,0,1,2,255,256,257} x {-1,0,1,5,254..258,300,511,65541}, ports {0,1,80,65535,65536,65616,-1,131070}, "
             "udp/tcp/icmp/unknown protocol, syn/default/unknown method, IPv4 and IPv6 loopback targets: error vs the TTLs, address, port and protocol actually on the wire; (9) the HTTP handler's query parsing on numeric/non-numeric/absent values; "
             "(10) target literal forms (IPv4, IPv6, bracketed, with and without port) x default ports around 0/1/65535/65536; (11) performTCPFallback with random error trees (wrap depth <= 4, NotSupportedError at any depth, errors.Join); "
@@ -117,13 +120,19 @@ PROPS["C20"] = dict(num=20, labs=["par"], rule=PAR_RULE, nontrivial="fallback-se
     trusted_base=PAR_TRUSTED, assumptions=["the loopback listener's accept count equals the TCP connections the run opened"])
 
 ISO_RULE = ("Allocator lab: packets.AllocPacketID sequences of 1..12 blocks (sizes incl. 1, 30, 255) from counter values at and around the 2^16 and 2^32 wraps, sequentially and from concurrent goroutines; icmp.nextEchoID sequences. "
-            "Driver lab, two-run part: for every variant a second run to the same target with the identifiers the allocators / the OS would hand it is alive at the same time; each run is fed every genuine reply to the other's probes. "
-            "Shared-wire part (kind 18): 2..6 REAL runs at once (runTracerouteOnce for udp / icmp / tcp-syn, IPv4 and IPv6, and whole RunTraceroute requests with 1..3 queries + 0..2 end-to-end probes) in one synctest bubble over ONE simulated wire on which every capture handle sees every inbound packet, with and without the capture filters; "
-            "the network routes per flow (path length, silent router and router ADDRESSES are functions of the echo id / local port), start offsets 0..51 ms, duplicated replies; observed: every run's hop list, which must be the ideal path of its own flow.")
-PROPS["C11"] = dict(num=11, labs=["iso", "drv"], rule=ISO_RULE + " " + DRV_RULE, nontrivial="any case", trivial_classes=[],
+            "Driver lab, two-run part: for every variant a second run to the same target with the identifiers the allocators / the OS would hand it is alive at the same time; each run is fed every genuine reply to the other's probes. ")
+SHARED_RULE = ("Shared-wire lab (kind 18): 2..6 REAL runs at once (runTracerouteOnce for udp / icmp / tcp-syn, IPv4 and IPv6, and whole RunTraceroute requests with 1..3 queries + 0..2 end-to-end probes) in one synctest bubble over ONE simulated wire on which every capture handle sees every inbound packet, with and without the capture filters; "
+            "the network routes per flow (path length, silent router and router ADDRESSES are functions of the echo id / local port), start offsets 0..51 ms, duplicated replies; observed: every run's hop list, which must be the ideal path of its own flow, and every hop RTT, which under the virtual clock must be exactly the delay of the FIRST reply to that probe (composed driver + engine).")
+PROPS["C11"] = dict(num=11, labs=["iso", "drv", "shared"], rule=ISO_RULE + " " + SHARED_RULE + " " + DRV_RULE, nontrivial="any case", trivial_classes=[],
     signatures={"11.1": "a reply to another concurrent run's probe became a hop of this run", "11.2": "identifier blocks of live runs overlap", "11.3": "echo identifiers repeat", "11.4": "a run on the shared wire did not report the path of its own flow (the result it produces alone)", "11.5": "two concurrent runs used the same flow identifier", "1": "a hop was reported for a packet that is not a genuine reply to this run's probe", "1.9": "hop from unparseable bytes"},
     trusted_base=DRV_TRUSTED + ["sync/atomic Add is linearisable (the allocator model is sequential)", "the OS never hands one local port to two sockets held at the same time (oracle)"],
     assumptions=["runs with relaxed quoted-source checking to one target are distinguished by 32-bit random ISNs only (named residue)"])
+
+for _pid in ("C01", "C02", "C05"):
+    PROPS[_pid]["labs"] = PROPS[_pid]["labs"] + ["shared"]
+    PROPS[_pid]["rule"] = PROPS[_pid]["rule"] + " " + SHARED_RULE
+    PROPS[_pid]["signatures"] = dict(PROPS[_pid]["signatures"], **_SHARED_SIGS)
+    PROPS[_pid]["trusted_base"] = PROPS[_pid]["trusted_base"] + ["shared-wire network simulator in /verif/harness/lab_shared_test.go (per-flow routing, deterministic delays)"]
 
 LIFE_RULE = ("Lifecycle lab: the real runTracerouteOnce for udp, icmp, tcp-syn (IPv4) and udp, icmp (IPv6) over the simulated wire behind packets.NewSourceSink with ONE injected fault: handle construction, filter installation, "
              "the k-th WriteTo / SetReadDeadline / Read (k = 1, 2, middle, last, last+1; every k in the thorough tier) x {fatal error, deadline error, zero-length read}; after the call returns the virtual clock runs on for 2 s so that any goroutine "
